@@ -29,6 +29,9 @@ fn main() {
         "sig" => sig(),
         "reuse" => reuse(),
         "bufsize" => bufsize(args[2].parse().unwrap()),
+        "history" => history(args[2].parse().unwrap(), args[3].parse().unwrap(), args[4].parse().unwrap()),
+        "putsweep" => putsweep(),
+        "durable" => durable(),
         _ => { eprintln!("unknown scenario"); 2 }
     };
     std::process::exit(code);
@@ -150,4 +153,161 @@ fn bufsize(bytes: u32) -> i32 {
     let _ = m.count_of_free_key_piece();
     let _ = std::fs::remove_dir_all(&dir);
     if ok { println!("OK"); 0 } else { println!("MISMATCH"); 1 }
+}
+
+// ---- generic witness search scenarios -------------------------------------------------------------------------------
+struct Rng(u64);
+impl Rng { fn next(&mut self) -> u64 { self.0 ^= self.0 << 13; self.0 ^= self.0 >> 7; self.0 ^= self.0 << 17; self.0 } fn below(&mut self, n: u64) -> u64 { self.next() % n } }
+
+/// walk the slots of a key/value file image: returns Err(description) if the tiling is broken
+fn walk_slots(b: &[u8]) -> Result<usize, String> {
+    if b.len() < 192 { return Err(format!("file shorter than its header: {}", b.len())); }
+    let mut o = 192usize; let mut n = 0;
+    while o < b.len() {
+        let (sz, _w) = vu64_at(b, o);
+        if sz == 0 { return Err(format!("slot of size 0 at offset {o} (file length {})", b.len())); }
+        o += sz as usize * 8; n += 1;
+    }
+    if o != b.len() { return Err(format!("last slot ends at {o}, file length {}", b.len())); }
+    Ok(n)
+}
+
+/// random history against a BTreeMap model on a small table with colliding keys and boundary-sized values
+fn history(seed: u64, nkeys: u64, nops: u64) -> i32 {
+    use std::collections::BTreeMap;
+    let dir = tmpdir("hist");
+    let mut rng = Rng(seed.wrapping_mul(0x9E3779B97F4A7C15) | 1);
+    let lens: [usize; 14] = [0, 1, 6, 7, 8, 14, 15, 16, 22, 30, 100, 1000, 1015, 5000];
+    let mut model: BTreeMap<String, Vec<u8>> = BTreeMap::new();
+    let params = FileDbParams { buckets_size: HashBucketsParam::BucketsSize(8), ..Default::default() };
+    let res = std::panic::catch_unwind(std::panic::AssertUnwindSafe(|| -> Result<(), String> {
+        let db = abyssiniandb::open_file(&dir).unwrap();
+        let mut m = db.db_map_string_with_params("m", params.clone()).unwrap();
+        for step in 0..nops {
+            let k = { let i = rng.below(nkeys); format!("{}{}", "k".repeat(1 + (i % 13) as usize), i) };
+            match rng.below(10) {
+                0..=4 => {
+                    let l = lens[rng.below(lens.len() as u64) as usize]; let fill = (rng.next() & 0xff) as u8;
+                    let v: Vec<u8> = (0..l).map(|i| fill.wrapping_add(i as u8)).collect();
+                    m.put(&k, &v).map_err(|e| format!("step {step}: put {k} failed: {e}"))?;
+                    model.insert(k.clone(), v);
+                }
+                5..=6 => {
+                    let r = m.delete(&k).map_err(|e| format!("step {step}: delete failed: {e}"))?;
+                    let e = model.remove(&k);
+                    if r != e { return Err(format!("step {step}: delete({k}) returned {:?} bytes, model {:?} bytes", r.map(|v| v.len()), e.map(|v| v.len()))); }
+                }
+                7 => {
+                    let r = m.get(&k).map_err(|e| format!("step {step}: get failed: {e}"))?;
+                    if r.as_ref() != model.get(&k) { return Err(format!("step {step}: get({k}) differs from the model")); }
+                }
+                8 => {
+                    let n = m.len().unwrap();
+                    if n != model.len() as u64 { return Err(format!("step {step}: len() = {n}, model {}", model.len())); }
+                    let mut seen: BTreeMap<String, Vec<u8>> = BTreeMap::new(); let mut cnt = 0u64;
+                    for (kk, vv) in m.iter() { cnt += 1; seen.insert(String::from_utf8_lossy(&kk).to_string(), vv); }
+                    if cnt != n || seen != model { return Err(format!("step {step}: iteration yields {cnt} items / differs from the model ({} keys)", model.len())); }
+                }
+                _ => {
+                    m.flush().unwrap();
+                    for (kk, vv) in &model { if m.get(kk).unwrap().as_ref() != Some(vv) { return Err(format!("step {step}: get({kk}) differs after flush")); } }
+                }
+            }
+        }
+        // final: everything readable, structure decodes
+        for (kk, vv) in &model { if m.get(kk).unwrap().as_ref() != Some(vv) { return Err(format!("final get({kk}) differs")); } }
+        m.flush().unwrap(); m.sync_all().unwrap();
+        for ext in ["key", "val"] {
+            let b = std::fs::read(dir.join(format!("m.{ext}"))).unwrap();
+            walk_slots(&b).map_err(|e| format!("m.{ext}: {e}"))?;
+        }
+        let _ = m.count_of_free_key_piece(); let _ = m.count_of_free_value_piece();
+        drop(m); drop(db);
+        // reopen and compare
+        let db = abyssiniandb::open_file(&dir).unwrap();
+        let mut m = db.db_map_string("m").unwrap();
+        if m.len().unwrap() != model.len() as u64 { return Err("len differs after reopen".into()); }
+        for (kk, vv) in &model { if m.get(kk).unwrap().as_ref() != Some(vv) { return Err(format!("get({kk}) differs after reopen")); } }
+        Ok(())
+    }));
+    let _ = std::fs::remove_dir_all(&dir);
+    match res {
+        Ok(Ok(())) => { println!("OK"); 0 }
+        Ok(Err(e)) => { println!("MISMATCH: history seed={seed} keys={nkeys} ops={nops}: {e}"); 1 }
+        Err(e) => {
+            let msg = e.downcast_ref::<String>().cloned().or_else(|| e.downcast_ref::<&str>().map(|s| s.to_string())).unwrap_or_default();
+            if msg.contains("key_offset != new_key_offset") || msg.contains("_prev_key_offset != new_prev_key_offset") {
+                // the recorded findings K1a / K1b: not what this search is looking for
+                println!("OK (history stopped at recorded finding K1: {msg})"); 0
+            } else { println!("MISMATCH: history seed={seed} keys={nkeys} ops={nops}: panicked: {msg}"); 1 }
+        }
+    }
+}
+
+/// every value length in 0..1100 and around 4 KiB / 128 KiB between two sentinels, then overwritten one byte longer
+fn putsweep() -> i32 {
+    let dir = tmpdir("sweep");
+    let res = std::panic::catch_unwind(std::panic::AssertUnwindSafe(|| -> Result<(), String> {
+        let db = abyssiniandb::open_file(&dir).unwrap();
+        let params = FileDbParams { buckets_size: HashBucketsParam::BucketsSize(64), ..Default::default() };
+        let mut m = db.db_map_string_with_params("m", params).unwrap();
+        let mut lens: Vec<usize> = (0..1100).collect();
+        lens.extend([4090, 4096, 4097, 16383, 16384, 131071, 131072, 131073]);
+        for (i, l) in lens.iter().enumerate() {
+            let (a, b, c) = (format!("a{i}"), format!("b{i}"), format!("c{i}"));
+            m.put_string(&a, "left").unwrap();
+            let v: Vec<u8> = (0..*l).map(|j| (j % 251) as u8).collect();
+            m.put(&b, &v).unwrap();
+            m.put_string(&c, "right").unwrap();
+            let mut v2 = v.clone(); v2.push(7);
+            m.put(&b, &v2).unwrap();
+            if m.get(&b).unwrap() != Some(v2) { return Err(format!("length {l}+1: value read back differs")); }
+            if m.get_string(&a).unwrap() != Some("left".into()) || m.get_string(&c).unwrap() != Some("right".into()) { return Err(format!("length {l}: a neighbour was overwritten")); }
+            m.delete(&a).unwrap(); m.delete(&b).unwrap(); m.delete(&c).unwrap();
+        }
+        m.flush().unwrap(); m.sync_all().unwrap();
+        for ext in ["key", "val"] { walk_slots(&std::fs::read(dir.join(format!("m.{ext}"))).unwrap()).map_err(|e| format!("m.{ext}: {e}"))?; }
+        Ok(())
+    }));
+    let _ = std::fs::remove_dir_all(&dir);
+    match res { Ok(Ok(())) => { println!("OK"); 0 } Ok(Err(e)) => { println!("MISMATCH: {e}"); 1 } Err(_) => { println!("MISMATCH: panicked"); 1 } }
+}
+
+fn copy_dir(from: &std::path::Path, to: &std::path::Path) {
+    let _ = std::fs::remove_dir_all(to); std::fs::create_dir_all(to).unwrap();
+    for e in std::fs::read_dir(from).unwrap() { let e = e.unwrap(); std::fs::copy(e.path(), to.join(e.file_name())).unwrap(); }
+}
+/// after every flush / sync the directory is copied while the handles are alive and the copy must open to the model
+fn durable() -> i32 {
+    use std::collections::BTreeMap;
+    let dir = tmpdir("dur"); let snap = tmpdir("dursnap");
+    let params = FileDbParams { buckets_size: HashBucketsParam::BucketsSize(8), ..Default::default() };
+    let res = std::panic::catch_unwind(std::panic::AssertUnwindSafe(|| -> Result<(), String> {
+        let db = abyssiniandb::open_file(&dir).unwrap();
+        let mut m = db.db_map_string_with_params("m", params.clone()).unwrap();
+        let mut model: BTreeMap<String, Vec<u8>> = BTreeMap::new();
+        let mut step = 0;
+        let mut check = |m: &mut abyssiniandb::filedb::FileDbMapDbString, model: &BTreeMap<String, Vec<u8>>, how: u32, step: &mut u32| -> Result<(), String> {
+            *step += 1;
+            match how { 0 => m.flush().unwrap(), 1 => m.sync_data().unwrap(), _ => m.sync_all().unwrap() }
+            copy_dir(&dir, &snap);
+            let db2 = abyssiniandb::open_file(&snap).unwrap();
+            let mut m2 = db2.db_map_string_with_params("m", params.clone()).unwrap();
+            if m2.len().unwrap() != model.len() as u64 { return Err(format!("sync point {step}: snapshot has {} entries, model {}", m2.len().unwrap(), model.len())); }
+            for (k, v) in model { if m2.get(k).unwrap().as_ref() != Some(v) { return Err(format!("sync point {step}: snapshot value of {k} differs")); } }
+            Ok(())
+        };
+        check(&mut m, &model, 0, &mut step)?;                                   // only created
+        m.put("a", b"value-one").unwrap(); model.insert("a".into(), b"value-one".to_vec()); check(&mut m, &model, 0, &mut step)?;
+        m.put("a", b"VALUE-ONE").unwrap(); model.insert("a".into(), b"VALUE-ONE".to_vec()); check(&mut m, &model, 0, &mut step)?;   // in place
+        m.put("a", &vec![5u8; 300]).unwrap(); model.insert("a".into(), vec![5u8; 300]); check(&mut m, &model, 1, &mut step)?;          // moved
+        m.put("b", b"x").unwrap(); model.insert("b".into(), b"x".to_vec()); check(&mut m, &model, 2, &mut step)?;
+        m.delete("a").unwrap(); model.remove("a"); check(&mut m, &model, 0, &mut step)?;
+        m.put("b", b"y").unwrap(); model.insert("b".into(), b"y".to_vec()); check(&mut m, &model, 1, &mut step)?;
+        m.delete("b").unwrap(); model.remove("b"); check(&mut m, &model, 2, &mut step)?;
+        check(&mut m, &model, 0, &mut step)?;                                   // flush on an unmodified map
+        Ok(())
+    }));
+    let _ = std::fs::remove_dir_all(&dir); let _ = std::fs::remove_dir_all(&snap);
+    match res { Ok(Ok(())) => { println!("OK"); 0 } Ok(Err(e)) => { println!("MISMATCH: {e}"); 1 } Err(_) => { println!("MISMATCH: panicked"); 1 } }
 }
